@@ -195,6 +195,42 @@ def gen_via_case(g, kind):
     s = ",".join(texts)
     return "codec via %s # spec=C14 eq ok %s %d %s" % (hx(s), hx(s), n, " ".join(entries)), kind
 
+def gen_viastamp_case(g):
+    """stamping received/rport on the first entry of a decoded Via must leave every other entry and
+    parameter untouched (expected result computed from the abstract entries)"""
+    n = g.pick([1, 2, 2, 3, 5])
+    ents = []
+    for i in range(n):
+        tr = g.pick(["UDP", "TCP", "TLS"]); h = host(g); p = port(g)
+        ps = [("branch", "z9hG4bK" + g.word(ALNUM, 4, 10))]
+        if g.chance(0.4): ps.append(("rport", g.pick(["", "1234"])))
+        if g.chance(0.2): ps.insert(g.rint(0, len(ps)), ("received", "1.2.3.4"))
+        for _ in range(g.pick([0, 0, 1, 3])):
+            ps.append((g.word(TOKEN.replace("%", ""), 1, 6), g.pick(["", esc_word(g, TOKEN.replace("%", ""), 1, 8, 0.1)])))
+        ents.append((tr, h, p, ps))
+    def text(e):
+        tr, h, p, ps = e
+        return "SIP/2.0/%s %s%s%s" % (tr, h, ":%d" % p if p is not None else "", render_params(ps))
+    s = ",".join(text(e) for e in ents)
+    ip, pt = g.pick(["127.0.0.9", "10.20.30.40"]), g.rint(1024, 65535)
+    tr, h, p, ps = ents[0]
+    ps2 = list(ps)
+    for i, (k, v) in enumerate(ps2):
+        if k == "received":
+            ps2[i] = (k, ip); break
+    else:
+        ps2.append(("received", ip))
+    for i, (k, v) in enumerate(ps2):
+        if k == "rport":
+            ps2[i] = (k, str(pt)); break
+    out = [(tr, h, p, ps2)] + ents[1:]
+    def first(ps, key):
+        for k, v in ps:
+            if k == key: return v
+        return None
+    exp = "ok %s %d %s" % (hx(",".join(text(e) for e in out)), n, " ".join("%s %s" % (opt(first(e[3], "branch")), kvlist(e[3])) for e in out))
+    return "codec viastamp %s %s %d # spec=C14 eq %s" % (hx(s), hx(ip), pt, exp), "dom"
+
 def gen_route_case(g, kind, op):
     n = g.pick([1, 1, 2, 3, 4])
     texts, entries = [], []
@@ -253,7 +289,9 @@ def generate(seed, tier):
             lines.append("codec %s %s" % (op, hx(s)))
             g.count("odd")
             continue
-        if t == 0:
+        if i % 9 == 8:
+            line, k = gen_viastamp_case(g)
+        elif t == 0:
             line, k = gen_uri_case(g, kind)
         elif t in (1, 2):
             line, k = gen_via_case(g, kind if kind != "usersemi" else "dom")
